@@ -96,6 +96,54 @@ CHECKS.update({
         "DESIGN.md section 3, C13"),
 })
 
+CHECKS.update({
+    "C03": (
+        "model_checking",
+        "exhaustive single-step exploration + explicit-state BFS over edit "
+        "histories, real Processor stepped in lock-step with a plain-data "
+        "model",
+        "Single steps: every document of a repeat-forcing corpus and every "
+        "anchor/alias decoration of the base documents x paths x new values "
+        "of each scalar type, the edited document compared with the model "
+        "(matched positions and their alias class change, nothing else), "
+        "alias sharing preserved, dump strictly reloads. Histories: BFS to "
+        "depth d over {set, create, delete} from seed documents, states "
+        "deduplicated by canonical form + alias classes, model comparison "
+        "and dump/reload on every transition.",
+        "matched positions come from the C01 reference evaluator; alias "
+        "used as a mapping *key* does not survive a ruamel dump even "
+        "unedited and is outside the corpus; replacing the document root is "
+        "not possible through set_value and is skipped",
+        "DESIGN.md section 3, C03"),
+    "C04": (
+        "model_checking",
+        "exhaustive single-step exploration against a plain-data delete "
+        "model (+ delete transitions inside the C03 history BFS)",
+        "Every document (empty containers, repeated scalars, nested lists) x "
+        "every path of 1..2 segments incl. negative indexes, wildcards, "
+        "traversals, searches and collector sums that match a node twice or "
+        "out of order; the model removes the set of matched positions; root "
+        "deletion must be refused and change nothing.",
+        "matched positions come from the C01 reference evaluator",
+        "DESIGN.md section 3, C04"),
+    "C09": (
+        "model_checking",
+        "exhaustive exploration; snapshot (canonical form + identity map) "
+        "equality for queries, creation model with exact frame for missing "
+        "tails",
+        "Purity: every document x every C01 path of 1..2 segments and 20 "
+        "collector expressions - canonical form and position->object map "
+        "equal before/after required query, exists() and optional query on "
+        "an existing path. Creation: every container position of every "
+        "document x every missing tail of length 1..3 (fresh key, index len, "
+        "len+2): result equals the model (exact tail, padding only up to the "
+        "index, every pre-existing node the same object), path resolves to "
+        "the value, dump reloads.",
+        "padding elements may hold anything; tails below null/scalars are "
+        "refused by the library and out of the clause",
+        "DESIGN.md section 3, C09"),
+})
+
 NOT_YET = {
 }
 
